@@ -611,13 +611,13 @@ def _run(world: World, plan):
             return
         is_parent = dn.parent is not None and dn.parent.connection is conn
         if isinstance(msg, M.DistributedBranchLevel.Request):
-            rec['heard'].level_msg(msg.level)
+            rec['heard'].level_msg(msg.level, now)
             rec['delivered'] += 1
             if is_parent:
                 state['cause'] = 'parent_reannounced'
                 state['cause_seq'] += 1
         elif isinstance(msg, M.DistributedBranchRoot.Request):
-            rec['heard'].root_msg(msg.username)
+            rec['heard'].root_msg(msg.username, now)
             rec['delivered'] += 1
             if is_parent:
                 state['cause'] = 'parent_reannounced'
